@@ -342,6 +342,22 @@ type SimRemote struct {
 	*SimStore
 }
 
+// Referrers makes the wrapper a registry.ReferrerLister, as remote.Repository is:
+// the filters of ExtendedCopy take another path for such sources.
+func (s *SimRemote) Referrers(ctx context.Context, d ocispec.Descriptor, artifactType string, fn func(referrers []ocispec.Descriptor) error) error {
+	n := s.M.g.Lookup(d)
+	k := s.M.enter(s.Name, "Predecessors", n)
+	if k == "before" || k == "after" {
+		s.M.leave(s.Name, "Predecessors", n, errInjected)
+		return fmt.Errorf("%s referrers: %w", s.Name, errInjected)
+	}
+	err := s.Inner.(interface {
+		Referrers(ctx context.Context, desc ocispec.Descriptor, artifactType string, fn func(referrers []ocispec.Descriptor) error) error
+	}).Referrers(ctx, d, artifactType, fn)
+	s.M.leave(s.Name, "Predecessors", n, err)
+	return err
+}
+
 type remoteInner interface {
 	FetchReference(ctx context.Context, reference string) (ocispec.Descriptor, io.ReadCloser, error)
 	PushReference(ctx context.Context, expected ocispec.Descriptor, content io.Reader, reference string) error
